@@ -136,6 +136,41 @@ def run(ctx):
                     ctx.violation(" ".join(p), {"why": "a script succeeding under the larger flag set must succeed identically under the smaller one",
                                                 "larger": chain[i], "smaller": chain[j], "out_larger": outs[i], "out_smaller": outs[j]})
     ctx.count("monotone-chains", nchains)
+    # 5. monotonicity on whole spends (set-up included): a spend valid under a flag set is valid under every subset
+    from . import c03
+    sp = c03.limit_cases(random.Random(ctx.seed * 9 + 5))
+    sp_lines, sp_meta = [], []
+    for (line, meta) in sp:
+        w = line.split(" ")
+        top = int(w[4]) | (1 << R.FLAG_BITS["SIGPUSHONLY"])
+        chain = [top]
+        cur = top
+        drop = [R.FLAG_BITS[n] for n in ("SIGPUSHONLY", "CLEANSTACK", "MINIMALDATA", "NULLFAIL", "DISCOURAGE_UPGRADABLE_NOPS")]
+        rnd.shuffle(drop)
+        for b in drop[:3]:
+            if b == R.FLAG_BITS["CLEANSTACK"] or True:
+                cur &= ~(1 << b)
+                chain.append(cur)
+        for f in chain:
+            w2 = list(w); w2[4] = str(f)
+            sp_lines.append(" ".join(w2)); sp_meta.append((meta["label"], f))
+    simpl = ctx.harness_sharded(sp_lines)
+    smodel = ctx.driver_sharded(sp_lines, "model")
+    strip = lambda l: re.sub(r" verdict=\S+$", "", l)
+    ctx.compare("spend-chains", sp_lines, simpl, [strip(m) for m in smodel], None, nontrivial=lambda c, im: "steps=" in im)
+    k = 0
+    for (line, meta) in sp:
+        n = 4
+        outs = simpl[k:k + n]; fls = [m[1] for m in sp_meta[k:k + n]]
+        k += n
+        vs = [c03.verdict_of_impl(o, f) for o, f in zip(outs, fls)]
+        for j in range(n):
+            for i in range(j):
+                # fls[i] ⊇ fls[j]
+                if vs[i] == "VALID" and vs[j] != "VALID":
+                    ctx.violation(sp_lines[k - n + i], {"why": "a spend valid under the larger flag set must be valid under the smaller one", "label": meta["label"],
+                                                        "larger": fls[i], "smaller": fls[j], "out_larger": outs[i][-200:], "out_smaller": outs[j][-200:]})
+    ctx.count("spend-monotone-chains", len(sp))
 
 
 def replay(ctx, case):
